@@ -270,8 +270,46 @@ def gen_pred(out, mod):
     out.append(f"def TIFF_MOD : Nat := {mods[0].value.value}\n")
 
 
+def gen_parser(out):
+    """pdfparser.py, `stream` branch of PDFParser.do_keyword: the end marker searched for in the lines after
+    the Length bytes and the clamp of Length to the file."""
+    mod = P.parse_file("pdfminer/pdfparser.py")
+    fn = P.find_function(mod, "PDFParser.do_keyword")
+    marks = []
+    for n in ast.walk(fn):
+        if (isinstance(n, ast.Compare) and len(n.ops) == 1 and isinstance(n.ops[0], ast.In)
+                and isinstance(n.left, ast.Constant) and isinstance(n.left.value, bytes)
+                and isinstance(n.comparators[0], ast.Name) and n.comparators[0].id == "line"):
+            marks.append(n.left.value)
+        if (isinstance(n, ast.Call) and isinstance(n.func, ast.Attribute) and n.func.attr == "index"
+                and isinstance(n.func.value, ast.Name) and n.func.value.id == "line" and len(n.args) == 1
+                and isinstance(n.args[0], ast.Constant) and isinstance(n.args[0].value, bytes)):
+            marks.append(n.args[0].value)
+    if len(marks) != 2 or marks[0] != marks[1]:
+        raise P.Untranslatable("do_keyword: `b\"…\" in line` and `line.index(b\"…\")` with one marker expected")
+    out.append("\n-- pdfparser.py: PDFParser.do_keyword, `stream` branch\n")
+    out.append("def ENDSTREAM_MARK : Bytes := " + P.lean_bytes(marks[0]) + "\n")
+    clamps = [s.value for s in ast.walk(fn) if isinstance(s, ast.Assign) and len(s.targets) == 1
+              and isinstance(s.targets[0], ast.Name) and s.targets[0].id == "objlen"
+              and isinstance(s.value, ast.Call) and isinstance(s.value.func, ast.Name)
+              and s.value.func.id == "min"]
+    if len(clamps) != 1:
+        raise P.Untranslatable("do_keyword: one `objlen = min(max(...), ...)` expected")
+    e = clamps[0]
+    for n in ast.walk(e):
+        if isinstance(n, ast.Name) and n.id == "end":
+            n.id = "fend"
+    names = free_names(e)
+    if sorted(names) != ["fend", "objlen", "pos"]:
+        raise P.Untranslatable("do_keyword: clamp uses " + repr(names))
+    tr = P.FuncTranslator({}, default_kind="int")
+    for n in names:
+        tr.env[n] = "int"
+    out.append(f"def streamClamp (objlen fend pos : Int) : Int := {tr.expr(e, 'int')}\n")
+
+
 def generate(lean_dir: str):
-    out = [P.HEADER.format(src="pdfminer/utils.py, pdfminer/pdftypes.py, pdfminer/lzw.py, pdfminer/runlength.py", ns="Filters")]
+    out = [P.HEADER.format(src="pdfminer/utils.py, pdfminer/pdftypes.py, pdfminer/lzw.py, pdfminer/runlength.py, pdfminer/pdfparser.py", ns="Filters")]
     mod = P.parse_file("pdfminer/utils.py")
     fn = P.find_function(mod, "paeth_predictor")
     tr = P.FuncTranslator({}, default_kind="int")
@@ -301,6 +339,7 @@ def generate(lean_dir: str):
     gen_lzw(out)
     gen_rl(out)
     gen_pred(out, mod)
+    gen_parser(out)
     out.append("\nend PdfVerif.Gen.Filters\n")
     path = os.path.join(lean_dir, "PdfVerif", "Gen", "Filters.lean")
     P.write_if_changed(path, "".join(out))
